@@ -283,7 +283,7 @@ def run_case(c, rng):
         state['stale'] = True
 
     def op_values(mode=None):
-        mode = mode or rng.choice(['var', 'var', 'param', 'all', 'boundary', 'kink', 'loadx'])
+        mode = mode or rng.choice(['var', 'var', 'param', 'all', 'boundary', 'kink', 'kink', 'loadx'])
         hist_shape.append('v')
         if mode == 'var':
             i = rng.randrange(nvars)
@@ -312,9 +312,15 @@ def run_case(c, rng):
                 ops_log.append('x%d.value = %r (inequality bound %r)' % (i, xv[i], b))
         elif mode == 'kink':
             i = rng.randrange(nvars)
-            xv[i] = 0.0
-            env['vars'][i].value = 0.0
-            ops_log.append('x%d.value = 0.0' % i)
+            under = [n.a[0].a[0] for con in live.values() for r_ in con.roots() for n in gx.walk(r_)
+                     if n.k in ('abs', 'sign') and isinstance(n.a[0], gx.N) and n.a[0].k == 'var']
+            if under and rng.random() < 0.7:
+                i = rng.choice(under)        # a variable that sits directly under abs / sign in a live constraint
+                c.count('kink_values_under_abs_or_sign')
+            xv[i] = rng.choice([0.0, 0.0, 2.0 ** -14, -2.0 ** -14, 1e-6, -1e-6, -2.0 ** -11])     # on and right beside the kinks of abs / sign
+            env['vars'][i].value = xv[i]
+            ops_log.append('x%d.value = %r' % (i, xv[i]))
+            state['force_check'] = True
         elif mode == 'loadx':
             if state['stale'] or not live:
                 return
@@ -510,7 +516,7 @@ def run_case(c, rng):
             op_del_dict()
         elif r < 0.78:
             op_values()
-            if not state['stale'] and rng.random() < 0.7:
+            if state.pop('force_check', False) or (not state['stale'] and rng.random() < 0.7):
                 check()
         else:
             check()
